@@ -81,7 +81,27 @@ fn checks_of(checks: &[error::FailedCheck]) -> Vec<CheckId> {
         .collect()
 }
 
+thread_local! {
+    /// rolling digest of everything the library returned during the current run (determinism proof)
+    static DIGEST: std::cell::Cell<u64> = std::cell::Cell::new(0);
+}
+
+pub fn digest_mix(bytes: &[u8]) {
+    DIGEST.with(|d| d.set(crate::rng::mix(d.get(), crate::rng::fnv(bytes))));
+}
+
+/// returns the digest accumulated since the last call and resets it
+pub fn digest_take() -> u64 {
+    DIGEST.with(|d| d.replace(0))
+}
+
 pub fn outcome_of(res: Result<usize, error::Token>) -> Outcome {
+    let o = outcome_of_inner(res);
+    digest_mix(format!("{o:?}").as_bytes());
+    o
+}
+
+fn outcome_of_inner(res: Result<usize, error::Token>) -> Outcome {
     match res {
         Ok(i) => Outcome::D(Decision::Allowed(i)),
         Err(error::Token::FailedLogic(error::Logic::Unauthorized { policy, checks })) => {
@@ -136,10 +156,12 @@ pub fn facts_of(v: Vec<b::Fact>) -> Result<BTreeSet<Pred>, String> {
 pub fn query(a: &mut Authorizer, rule: &Rule, all: bool) -> Result<BTreeSet<Pred>, String> {
     let r = rule.to_builder();
     let res: Result<Vec<b::Fact>, error::Token> = if all { a.query_all(r) } else { a.query(r) };
-    match res {
+    let out = match res {
         Ok(v) => facts_of(v),
         Err(e) => Err(format!("{e:?}")),
-    }
+    };
+    digest_mix(format!("{out:?}").as_bytes());
+    out
 }
 
 /// the engine's facts with their origins, read through the snapshot wire form
